@@ -12,7 +12,7 @@ package tablelib
 //@   prop C19
 //@   arith int
 //@   norte
-//@   requires t != nil && c != nil && 0 <= c.nArgs && c.nArgs <= len(c.args)
+//@   requires t != nil && c != nil && 0 <= c.nArgs && c.nArgs <= len(c.args) && len(c.args) == 2
 //@   modifies everything()
 //@   exits any
 //@   loop 1: invariant true
